@@ -266,12 +266,23 @@ fn self_check(report: &Report) -> BTreeMap<usize, usize> {
     if let Err(e) = scan_file(&path, "generated.rs", &mut fns) {
         vcore::inconclusive(&format!("generated.rs does not parse: {e}"));
     }
-    if fns.len() != ENTRIES.len() {
-        vcore::inconclusive(&format!("generated.rs on disk has {} memo functions, the built program {}", fns.len(), ENTRIES.len()));
+    // the file-module program (functions live in gen_mods/fNN/mod.rs, not in generated.rs) is
+    // classed by the generator table alone
+    let inline: Vec<&Entry> = ENTRIES.iter().filter(|e| e.prog != generated::FILE_MODULE_PROGRAM).collect();
+    if fns.len() != inline.len() {
+        vcore::inconclusive(&format!("generated.rs on disk has {} memo functions, the built program {}", fns.len(), inline.len()));
     }
     let mut by_key: BTreeMap<(String, String), Vec<usize>> = BTreeMap::new();
     let mut by_class: BTreeMap<(u32, &str, u8), Vec<usize>> = BTreeMap::new();
-    for (i, (f, e)) in fns.iter().zip(ENTRIES.iter()).enumerate() {
+    let mut file_classes: BTreeMap<(u32, &str, u8), Vec<usize>> = BTreeMap::new();
+    let mut fi = 0;
+    for (i, e) in ENTRIES.iter().enumerate() {
+        if e.prog == generated::FILE_MODULE_PROGRAM {
+            file_classes.entry(class_of(e)).or_default().push(i);
+            continue;
+        }
+        let f = &fns[fi];
+        fi += 1;
         if f.module != e.module || f.name != e.name {
             vcore::inconclusive("generated.rs on disk is not the program that was built");
         }
@@ -288,11 +299,12 @@ fn self_check(report: &Report) -> BTreeMap<usize, usize> {
         vcore::inconclusive("the generator's collision classes differ from the signature token streams syn sees");
     }
     let mut class_size = BTreeMap::new();
-    for v in by_class.values() {
+    for v in by_class.values().chain(file_classes.values()) {
         for i in v {
             class_size.insert(*i, v.len());
         }
     }
+    report.label_n("generated:same-signature-functions-in-same-named-files", file_classes.values().filter(|v| v.len() > 1).map(|v| v.len() as u64).sum());
     report.label_n("generated:memo-functions", ENTRIES.len() as u64);
     report.label_n("generated:signature-classes-with->=2-functions", by_class.values().filter(|v| v.len() > 1).count() as u64);
     class_size
@@ -347,7 +359,7 @@ fn run(args: &Args) {
         ));
     }
 
-    let want_programs = args.tier.pick(1u32, 8u32);
+    let want_programs = args.tier.pick(1u32, 8u32) + 1; // + the file-module program
     if generated::PROGRAMS != want_programs && args.replay.is_none() {
         vcore::inconclusive(&format!("generated.rs holds {} programs, tier {} wants {want_programs} (run through ./check)", generated::PROGRAMS, args.tier.as_str()));
     }
